@@ -5,9 +5,9 @@ CONSTANTS
   Delays = {0, 1}
   Actives = {0, 1, 2}
   Starts = {2}
-  InitBlocks = {1, 3}
+  InitBlocks = {1}
   MaxMsgs = 2
-  Slack = 1
+  Slack = 0
   Faults = {"start", "delay", "initiate", "waiter", "next"}
   BadMsgs = {FALSE, TRUE}
   Prompt = FALSE
